@@ -161,8 +161,10 @@ class FontConfiguration:
             # Get font content.
             try:
                 with fetch(url_fetcher, url) as result:
-                    string = 'string' in result
-                    font = result['string'] if string else result['file_obj'].read()
+                    if 'string' in result:
+                        font = result['string']
+                    else:
+                        font = result['file_obj'].read()
             except Exception as exception:
                 LOGGER.debug('Failed to load font at %r (%s)', url, exception)
                 continue
